@@ -224,7 +224,7 @@ def finish(pid, tier, seed, level, results, t0, checker_cmd, trusted_base, assum
     ev = {"property_id": pid, "tier": tier, "seed": seed, "level": level, "coverage": cov,
           "assumptions": all_assump, "wall_s": round(wall, 2), "violations": len(violations)}
     os.makedirs(EVIDENCE_DIR, exist_ok=True)
-    with open(os.path.join(EVIDENCE_DIR, pid + ".json"), "w") as f:
+    with open(os.path.join(EVIDENCE_DIR, pid + (".partial" if os.environ.get("VERIF_PARTIAL") else "") + ".json"), "w") as f:
         json.dump(ev, f, indent=1, default=str)
     print("SUMMARY property=%s tier=%s obligations=%d discharged=%d bounded=%d/%d violations=%d undecided=%d known=%d wall=%.1fs" % (
         pid, tier, n_obl, n_dis, b_dis, b_obl, len(violations), len(undecided), len(known_hits), wall))
